@@ -73,6 +73,11 @@ fn engine_shard(id: &str, tier: &str, seed: u64, replay: Option<&serde_json::Val
             let e2 = checks_c03::shard_run(id, tier, seed, replay, shard);
             out.merge(e2);
         }
+        if id == "C07" && replay.is_none() && out.found.is_empty() && shard.k == 7 % shard.n {
+            if let Some(f) = checks_e1::bulk_two_clients(if tier == "thorough" { 20_000 } else { 1_500 }, seed, &mut out.cov) {
+                out.found.push(f);
+            }
+        }
         if id == "C09" && replay.is_none() && out.found.is_empty() {
             // concurrent part: clients acting at the same time vs. each alone
             let c = checks_c09::shard_run(tier, seed, shard);
